@@ -23,9 +23,9 @@ def case(g, tier, ci):
     SR = r.choice([1e3, 1e6, 1e9, 2.4e9])
     chans = r.sample([3, 1, 2, "B"], r.randint(1, 3))
     P = r.randint(1, 3)
-    N = r.choice([2399, 2400, 2400, 2401, 2600])
+    N = r.choice([2399, 2400, 2400, 2401, 2600]) if ci % 6 != 4 else r.choice([2399, 2400, 1000])
     amps = {ch: r.choice([0.5, 1, 2, 4.5, 1 + 2.0 ** -12]) for ch in chans}      # (one with digits below a millivolt)
-    boundary = r.random() < 0.45
+    boundary = r.random() < 0.45 or ci % 6 == 4
     ops = [{"op": "sq.new", "id": "s"}, {"op": "sq.setSR", "id": "s", "v": enc(SR)}]
     if r.random() < 0.5:
         ops.append({"op": "sq.setName", "id": "s", "name": r.choice(["myseq", "x", ""])})
@@ -42,7 +42,9 @@ def case(g, tier, ci):
                 a = amps[ch]
                 k = r.random()
                 other = [amps[c] for c in chans if c != ch]
-                if k < 0.4:
+                if ci % 6 == 4:
+                    lv = 0.0        # every channel of this case idles at 0 V (2399 points are too few all the same)
+                elif k < 0.4:
                     lv = a / 2 * r.choice([0.5, 0.0])
                 elif k < 0.65:
                     lv = a / 2
